@@ -443,6 +443,21 @@ func (x *Exec) spawn(st *State, s *ast.GoStmt) {
 	// is sequential per goroutine; a delivery made by another goroutine at an undetermined
 	// moment is outside every proof that rests on it.
 	seenFn := map[*FuncInfo]bool{}
+	hookedCall := func(cs []*Clause, name, what, who string) {
+		var tags []string
+		for _, c := range cs {
+			for _, tg := range c.Tags {
+				if !hasTag(tags, tg) {
+					tags = append(tags, tg)
+				}
+			}
+		}
+		if len(tags) == 0 {
+			return
+		}
+		x.broken(st, "ownership", fmt.Sprintf("go[%d:%s]:%s-in-a-goroutine-without-contract", x.ordinal(s), who, name), tags,
+			fmt.Sprintf("%s is made by the goroutine started here (%s), which has no contract: its order relative to this goroutine's operations is undetermined", what, who))
+	}
 	var scanBody func(body ast.Node, who string, depth int)
 	scanBody = func(body ast.Node, who string, depth int) {
 		ast.Inspect(body, func(n ast.Node) bool {
@@ -462,10 +477,39 @@ func (x *Exec) spawn(st *State, s *ast.GoStmt) {
 			case *ast.CallExpr:
 				if id, ok := t.Fun.(*ast.Ident); ok && id.Name == "close" && len(t.Args) == 1 {
 					ch, kind = t.Args[0], "close"
-				} else if fn := x.staticCallee(t); fn != nil && fn.Pkg() != nil && fn.Pkg().Path() == x.fn.pkgPath() {
-					if g := x.prog.funcs[funcKeyOf(fn)]; g != nil && g.decl.Body != nil && x.sp.Funcs[funcKeyOf(fn)] == nil && !seenFn[g] && depth < 3 {
-						seenFn[g] = true
-						scanBody(g.decl.Body, who, depth+1)
+				} else if fn := x.staticCallee(t); fn != nil {
+					if fn.Pkg() != nil && fn.Pkg().Path() == x.fn.pkgPath() {
+						if g := x.prog.funcs[funcKeyOf(fn)]; g != nil && g.decl.Body != nil && x.sp.Funcs[funcKeyOf(fn)] == nil && !seenFn[g] && depth < 3 {
+							seenFn[g] = true
+							scanBody(g.decl.Body, who, depth+1)
+						}
+					}
+					// a call the ghost accounting watches (Release, Handle, the divider, Sleep ...)
+					if cev := x.findCallEvent(funcKeyOf(fn)); cev != nil && len(cev.Clauses) > 0 {
+						hookedCall(cev.Clauses, "call-"+sane(lastName(funcKeyOf(fn))), "call of "+funcKeyOf(fn), who)
+					}
+				} else if ft := x.info().TypeOf(t.Fun); ft != nil {
+					if _, isSig := ft.Underlying().(*types.Signature); isSig {
+						if n, ok := types.Unalias(ft).(*types.Named); ok && n.Obj().Pkg() != nil {
+							fts := x.sp.FuncTypes[n.Obj().Pkg().Path()+"."+n.Obj().Name()]
+							if fts == nil {
+								fts = x.sp.FuncTypes[x.fn.pkgPath()+"."+n.Obj().Name()]
+							}
+							if fts != nil {
+								var req []*Clause
+								for _, c := range fts.Clauses {
+									if c.Kind == "requires" {
+										req = append(req, c)
+									}
+								}
+								if cev := x.findCallEvent("functype " + n.Obj().Name()); cev != nil {
+									req = append(req, cev.Clauses...)
+								}
+								if len(req) > 0 {
+									hookedCall(req, "call-functype-"+sane(n.Obj().Name()), "call through a value of function type "+n.Obj().Name(), who)
+								}
+							}
+						}
 					}
 				}
 			}
